@@ -137,7 +137,10 @@ let do_e2e id ins outs =
       | Some rb ->
         let body = (match pr, rb with TCP, _ :: _ :: r -> r | _, r -> r) in
         (* the TTL of the single answer record sits 6 bytes after the question *)
-        let qlen = List.length q in
+        (* end of the question section (the query may carry an OPT record after it) *)
+        let qa = Array.of_list (List.map int_of_z q) in
+        let rec qe o = if o >= Array.length qa || qa.(o) = 0 then o + 5 else qe (o + 1 + qa.(o)) in
+        let qlen = min (qe 12) (Array.length qa) in
         let toff = qlen + 6 in
         let nth l i = int_of_z (List.nth l i) in
         let ttl_of l = if List.length l >= toff + 4 then Some ((((nth l toff) * 256 + nth l (toff+1)) * 256 + nth l (toff+2)) * 256 + nth l (toff+3)) else None in
